@@ -5,6 +5,7 @@ package main
 import (
 	"bufio"
 	"context"
+	"errors"
 	"fmt"
 	"net"
 	"os"
@@ -31,12 +32,14 @@ import (
 // verifhook.At("peer.Manager.handleDisconnect:done") tells the script when a teardown has finished.
 //
 //   reset                       new agent                                          -> ok
-//   connect in|out <p>          a handshake with peer p completes (inbound: Accept, outbound:
-//                               ConnectWithTransport)                              -> registered c<k> | rejected c<k>
+//   connect in|out <p>          a handshake with peer p completes, through the AGENT's own paths (inbound:
+//                               Agent.handleIncomingConnection, outbound: Agent.connectToPeer on a configured peer)                              -> registered c<k> | rejected c<k>
 //   race <p> <k> held|free      k handshakes with peer p complete SIMULTANEOUSLY (held: all inbound, released together
 //                               from behind the manager's lock; free: both directions, goroutines started together);
 //                               then a frame is sent on each: exactly one may be registered, stay open, deliver
 //                                                                                  -> race registered=<n> open=<n> delivered=<n>
+//   sendblock <c> / unblock <c> the remote end sends a frame whose HANDLER (the frame callback) is held by the script
+//                               until unblock: a slow downstream                   -> blocked|dropped / ok|notblocked
 //   frame <c>                   the remote end sends a STREAM_DATA frame on c      -> delivered | dropped
 //   rclose <c>                  the remote closes c; the read error is held, the keepalive loop's next
 //                               send (real timer, 100 ms interval) fails and it tears the connection
@@ -71,6 +74,7 @@ type c32Conn struct {
 	registered bool
 	released   bool
 	stalled    bool
+	blockedSID uint64
 	silent     bool // its read loop was seen to exit without a teardown
 	mu         sync.Mutex
 	responsive bool
@@ -85,6 +89,13 @@ type c32World struct {
 	frames  chan uint64
 	nextSID uint64
 	nextNet int
+
+	outMu   sync.Mutex
+	outNext transport.PeerConn // the connection the agent's next outbound dial gets (nil: dial fails)
+
+	blockMu sync.Mutex
+	blocked map[uint64]chan struct{} // frames whose handler is held by the script: stream id -> gate
+	entered chan uint64
 }
 
 var c32W *c32World
@@ -109,14 +120,36 @@ func c32Reset() string {
 	cfg.Connections.IdleThreshold = c32KAInterval
 	cfg.Connections.Timeout = c32KATimeout
 	cfg.Connections.KeepaliveJitter = 0
+	cfg.Connections.Reconnect.InitialDelay = time.Hour // configured (persistent) peers are re-dialled by the script only
+	cfg.Connections.Reconnect.MaxDelay = time.Hour
 	a, err := agent.New(cfg)
 	must(err)
 	w := &c32World{dir: dir, a: a, m: a.VerifC32PeerMgr(), done: make(chan struct{}, 64), frames: make(chan uint64, 256), nextSID: 1000}
+	w.blocked = map[uint64]chan struct{}{}
+	w.entered = make(chan uint64, 16)
 	w.m.SetFrameCallback(func(_ identity.AgentID, f *protocol.Frame) {
 		if f.Type == protocol.FrameStreamData {
+			w.blockMu.Lock()
+			gate := w.blocked[f.StreamID]
+			w.blockMu.Unlock()
+			if gate != nil { // a slow handler: held until the script lets it return
+				w.entered <- f.StreamID
+				<-gate
+				return
+			}
 			w.frames <- f.StreamID
 		}
 	})
+	a.VerifC32SetTransport("mem", &pmtTransport{dial: func(context.Context, string) (transport.PeerConn, error) {
+		w.outMu.Lock()
+		defer w.outMu.Unlock()
+		if w.outNext == nil {
+			return nil, errors.New("no scripted connection")
+		}
+		pc := w.outNext
+		w.outNext = nil
+		return pc, nil
+	}})
 	verifhook.Point = func(name string) {
 		if name == "peer.Manager.handleDisconnect:done" {
 			select {
@@ -131,6 +164,12 @@ func c32Reset() string {
 
 func (w *c32World) shutdown() {
 	verifhook.Point = nil
+	w.blockMu.Lock()
+	for sid, g := range w.blocked {
+		close(g)
+		delete(w.blocked, sid)
+	}
+	w.blockMu.Unlock()
 	for _, c := range w.conns {
 		c.end.releaseReadErrors()
 		if c.remote != nil {
@@ -229,14 +268,57 @@ func (w *c32World) handshake(dir string, p int, name string, ready chan<- struct
 	return c
 }
 
+// connect: one complete handshake pushed through the AGENT's own paths — Agent.handleIncomingConnection for an
+// inbound transport connection, Agent.connectToPeer (a configured, persistent peer on the in-memory transport) for
+// an outbound one — which call peerMgr.Accept / ConnectWithTransport and act on what those hand back.
 func (w *c32World) connect(dir string, p int) string {
-	c := w.handshake(dir, p, fmt.Sprintf("c%d", len(w.conns)), nil)
-	if c == nil {
+	c := &c32Conn{idx: len(w.conns), p: p, responsive: true}
+	dialEnd, listenEnd := pmtPair(fmt.Sprintf("c%d", c.idx))
+	dialEnd.holdReadErrors()
+	c.end = dialEnd
+	ctx, cancel := context.WithTimeout(context.Background(), 5*time.Second)
+	defer cancel()
+	h := peer.NewHandshaker(c32ID(p), fmt.Sprintf("peer-%d", p), nil, 5*time.Second)
+	rcfg := peer.DefaultConnectionConfig(c32ID(p))
+	type res struct {
+		conn *peer.Connection
+		err  error
+	}
+	rch := make(chan res, 1)
+	before := w.m.GetPeer(c32ID(p))
+	if dir == "in" {
+		tr := &pmtTransport{dial: func(context.Context, string) (transport.PeerConn, error) { return dialEnd, nil }}
+		go func() {
+			rc, err := h.DialAndHandshake(ctx, tr, "mem", rcfg, transport.DialOptions{})
+			rch <- res{rc, err}
+		}()
+		w.a.VerifC32HandleIncoming(listenEnd)
+	} else {
+		go func() {
+			rc, err := h.AcceptHandshake(ctx, listenEnd, rcfg)
+			rch <- res{rc, err}
+		}()
+		w.outMu.Lock()
+		w.outNext = dialEnd
+		w.outMu.Unlock()
+		w.a.VerifC32ConnectToPeer(config.PeerConfig{Transport: "mem", Address: fmt.Sprintf("mem-peer-%d-%d", p, c.idx)})
+	}
+	var r res
+	select {
+	case r = <-rch:
+	case <-time.After(6 * time.Second):
 		return "handshake-failed"
 	}
-	c.idx = len(w.conns)
-	c.registered = w.m.GetPeer(c32ID(p)) == c.local
+	if r.err != nil {
+		return "handshake-failed"
+	}
+	c.remote = r.conn
+	after := w.m.GetPeer(c32ID(p))
+	if before == nil && after != nil {
+		c.local, c.registered = after, true
+	}
 	w.conns = append(w.conns, c)
+	go c.remoteLoop()
 	if c.registered {
 		c.settle()
 		return fmt.Sprintf("registered c%d", c.idx)
@@ -361,6 +443,9 @@ func (w *c32World) conn(tok string) *c32Conn {
 }
 
 func (c *c32Conn) localClosed() bool {
+	if c.local == nil { // a rejected duplicate of the agent path: the manager closed it
+		return true
+	}
 	select {
 	case <-c.local.Done():
 		return true
@@ -414,9 +499,50 @@ func c32Run(line string) string {
 			return "ok"
 		}
 		c.remote.Close()
-		if !w.waitDone(5 * time.Second) {
+		if !w.waitDone(2 * time.Second) {
 			return "no-teardown"
 		}
+		return "ok"
+	case "sendblock": // a frame whose handler (the agent's frame callback) does not return until `unblock`
+		c := w.conn(f[1])
+		if c == nil {
+			return "dropped"
+		}
+		w.nextSID++
+		sid := w.nextSID
+		gate := make(chan struct{})
+		w.blockMu.Lock()
+		w.blocked[sid] = gate
+		w.blockMu.Unlock()
+		c.blockedSID = sid
+		if err := c.remote.WriteFrame(&protocol.Frame{Type: protocol.FrameStreamData, StreamID: sid, Payload: []byte{1}}); err == nil {
+			select {
+			case <-w.entered:
+				c.settle()
+				return "blocked"
+			case <-time.After(300 * time.Millisecond):
+			}
+		}
+		w.blockMu.Lock()
+		delete(w.blocked, sid)
+		w.blockMu.Unlock()
+		c.blockedSID = 0
+		return "dropped"
+	case "unblock":
+		c := w.conn(f[1])
+		if c == nil || c.blockedSID == 0 {
+			return "notblocked"
+		}
+		w.drainDone()
+		w.blockMu.Lock()
+		gate := w.blocked[c.blockedSID]
+		delete(w.blocked, c.blockedSID)
+		w.blockMu.Unlock()
+		c.blockedSID = 0
+		close(gate)
+		// Nothing may be waiting for that handler. Give a teardown that (wrongly) did wait for it time to run
+		// before the next observation.
+		w.waitDone(400 * time.Millisecond)
 		return "ok"
 	case "stall":
 		c := w.conn(f[1])
@@ -554,13 +680,50 @@ func init() {
 			dir := func() string { return r.pickS("in", "out") }
 			for i := 0; i < cases; i++ {
 				p("reset")
-				kind := r.intn(9)
+				kind := r.intn(11)
 				if i < 2 {
 					kind = 6 // every run stresses simultaneous registration
-				} else if i < 4 {
-					kind = 5 + i // ... and has a frame-in-flight-at-close case (7) and a keepalive-timeout case (8)
+				} else if i < 6 {
+					kind = 5 + i // ... and has the cases 7 (frame in flight at close), 8 (keepalive timeout),
+					// 9 (duplicate through the agent's accept/connect paths), 10 (blocked frame handler)
 				}
 				switch kind {
+				case 9: // a second handshake with the identity of a connected peer, through the agent's own accept /
+					// connect paths: the first connection stays registered, open, delivering, its routes intact
+					p("connect %s 1", dir())
+					p("connect %s 2", dir())
+					p("learn 1 %d", r.pick(2, 3))
+					p("relay 1 2")
+					p("connect in 1")
+					p("peer 1")
+					p("frame 0")
+					p("connect out 1")
+					p("peer 1")
+					p("frame 0")
+					p("frame %d", r.pick(2, 3))
+					p("readerr 0")
+					obs()
+					p("connect %s 2", dir())
+					p("frame 1")
+					obs()
+				case 10: // a frame handler of connection 0 is blocked (slow downstream) while its transport dies, the peer
+					// reconnects and its routes are learned again; then the handler returns
+					p("connect %s 1", dir())
+					p("connect %s 2", dir())
+					p("learn 1 1")
+					p("sendblock 0")
+					p(r.pickS("rclose 0", "rclose 0", "disconnect 1"))
+					p("connect %s 1", dir())
+					p("learn 1 %d", r.pick(2, 4))
+					p("relay 1 2")
+					if r.chance(50) {
+						p("readerr 0")
+					}
+					p("unblock 0")
+					obs()
+					p("readerr 0")
+					obs()
+					p("frame 2")
 				case 7: // Disconnect / DisconnectAll while a frame is still in flight to the read loop: the loop exits
 					// without a teardown, the old routes stay until the NEXT teardown of that peer
 					p("connect %s 1", dir())
